@@ -62,6 +62,14 @@ claim("C17", "DESIGN.md 6 C17", "C17_merge_window: an input whose script is item
 claim("C19", "DESIGN.md 6 C19", "C19_wait_until_gate (Pw): polls are (deadline,Pending)* (deadline,a0) (inner,_)+; results are exactly the inner's non-Pending answers." + COMMON)
 claim("C20", "DESIGN.md 6 C20", "C20_*: after a Pending return with no insertion since, every awaited child has been polled - selective and non-selective strategies, join/try_join, merge, zip, groups. Partial: 'a never-completing child does not block its siblings' second sentence is covered by the selective-polling invariant + correspondence/monitor, not a separate theorem; race/race_ok poll every unfinished child each poll by the shape of their scan." + COMMON)
 P["C04"]["text"] += COMMON
+claim("C18", "DESIGN.md 6 C18",
+      "Translator route: on every run the field structure of every struct/enum of the crate (259 types, macro-generated tuple variants included) and the auto-trait impls "
+      "rustc synthesized for them are translated from nightly rustdoc JSON of the current tree into a generated Coq table; theorem C18_send_sync_preserved proves over that "
+      "table, for every type and both traits, that rustc's impl is positive, that the predicate set the Coq rule table computes from the fields equals rustc's where-clauses, and "
+      "that it consists only of 'child (or child output) is Send/Sync'. Type parameters are opaque atoms, so every instantiation is covered. The futures of the async-fn drivers "
+      "(for_each / try_for_each / collect) have no fields and are covered by concrete Send probes compiled against the current tree. The Coq content is a finite evaluation per "
+      "type; the depth is in the exact comparison with rustc.",
+      "translator (rustdoc JSON of the current tree -> generated Coq table) + Coq evaluation proof over the table, compared with rustc's synthesized auto-trait impls; rustc probes for the async fns")
 
 CO = (" The model is an acceptor at await-resolution granularity (Model/CoStream.v); the check derives the event list (source items, closure calls with their "
       "arguments, completions, drops, result) from every run of the real drivers under random wake-only and adversarial schedules - 14 adapter stacks x "
